@@ -776,20 +776,26 @@ def oracle(ctx, scale):
     pl = _pl()
     rng = ctx.rng
     nmax = ctx.n(4, 6)
-    for _ in range(ctx.n(500, 5000) * scale):
+    for it in range(ctx.n(500, 5000) * scale):
         g = ctx.nprng()
         n = rng.randint(1, nmax)
         Nch = rng.randint(2, 5)
         Nref = rng.randint(1, 5)
         Nf = 4 * (n + 1) + rng.randint(0, 40)
-        if rng.random() < 0.025:
+        if it < ctx.n(2, 8):
+            # the grids of long segments (nxseg = 8192 .. 32768 give 4097 .. 16385 lines): an implementation may process the
+            # lines in blocks above some size; the fit is defined for every number of lines
+            Nf = rng.choice([4097, 4099, 5000, 8193, 10001] + ([16385] if ctx.thorough else []))
+            n, Nch, Nref = min(n, 2), 2, 1
+            ctx.count("oracle_very_long_grid")
+        elif rng.random() < 0.025:
             # long frequency grids (segment lengths of 2048 and more), not a multiple of any round block size
             Nf = rng.choice([1025, 1201, 2049, rng.randint(1026, 2300)])
             n, Nch, Nref = min(n, 3), min(Nch, 3), min(Nref, 2)
             ctx.count("oracle_long_grid")
         dt = 10 ** rng.uniform(-3, 0.5)
         sgn = rng.choice([-1, 1])
-        extra = rng.choice([0, 0, 1, 2])
+        extra = rng.choice([0, 0, 1, 2]) if Nf < 4000 else 0
         A, B = _gen_AB(g, n, Nch, Nref, spread=rng.choice([0.4, 0.6, 0.9]))
         if rng.random() < 0.4:  # the spectrum's amplitude is free: numerator far from unit size
             B = B * 10 ** rng.uniform(-8, 8)
@@ -922,6 +928,29 @@ def _class_case(ctx, pl, params=None):
         if not _same_arrays(keep, now):
             ctx.violation("class-view-modifies-result", "pLSCF.plot_stab / plot_cluster with a frequency window changed the stored pole tables", inp | {"band": list(band)})
             return
+    if rng.random() < 0.6:
+        # extracting modes reads the pole tables; afterwards they still report the same poles (same values, same cells)
+        Fq = np.asarray(ra.Fn_poles, float)
+        cols = [c for c in range(Fq.shape[1]) if np.any(~np.isnan(Fq[:, c]))]
+        if cols:
+            keep = [np.array(np.asarray(getattr(ra, f)), copy=True) for f in ("Fn_poles", "Xi_poles", "Phi_poles", "Lab")]
+            col = rng.choice(cols)
+            vals = sorted(set(float(x) for x in Fq[:, col][~np.isnan(Fq[:, col])]))
+            pick = sorted(rng.sample(vals, min(len(vals), rng.randint(1, 2))))
+            try:
+                if rng.random() < 0.5:
+                    setup.mpe("a", sel_freq=pick, order=int(col))
+                else:
+                    setup.mpe("a", sel_freq=pick, order=[int(col)] * len(pick))
+            except Exception as e:  # noqa: BLE001
+                ctx.violation("class-extraction-raises", f"pLSCF.mpe at column {col} for frequencies taken from that column raised {type(e).__name__}: {str(e)[:80]}", inp | {"col": int(col), "sel": pick})
+                return
+            ctx.oracle_cases += 1
+            ctx.count("class_tables_reread_after_extraction")
+            now = [np.asarray(getattr(a.result, f)) for f in ("Fn_poles", "Xi_poles", "Phi_poles", "Lab")]
+            if not _same_arrays(keep, now):
+                ctx.violation("class-extraction-modifies-tables", "pLSCF.mpe changed the stored pole tables (the tables no longer report the poles of the fitted model)", inp | {"col": int(col), "sel": pick})
+                return
     Ad_a = [np.array(x, copy=True) for x in ra.Ad]
     Bn_a = [np.array(x, copy=True) for x in ra.Bn]
     if not np.array_equal(data, data_in):
